@@ -98,7 +98,13 @@ Theorem C05_ctor_total :
   (forall a, exists out, ctor_step [140; 5; a]%Z = Some out) /\
   (forall a b c d, exists out, ctor_step [140; 6; a; b; c; d]%Z = Some out) /\
   (forall a b, exists out, ctor_step [140; 7; a; b]%Z = Some out) /\
-  (forall a b c, exists out, ctor_step [140; 8; a; b; c]%Z = Some out).
+  (forall a b c, exists out, ctor_step [140; 8; a; b; c]%Z = Some out) /\
+  (forall a, exists out, ctor_step [140; 9; a]%Z = Some out) /\
+  (forall a b, exists out, ctor_step [140; 10; a; b]%Z = Some out) /\
+  (forall a b, exists out, ctor_step [140; 11; a; b]%Z = Some out) /\
+  (forall a, exists out, ctor_step [140; 12; a]%Z = Some out) /\
+  (forall a, exists out, ctor_step [140; 13; a]%Z = Some out) /\
+  (forall a, exists out, ctor_step [140; 14; a]%Z = Some out).
 Proof. repeat split; intros; cbn [ctor_step]; eauto. Qed.
 
 (** a ratio is accepted exactly when it is a finite number of [0, 1]; NaN, the infinities and
@@ -137,6 +143,61 @@ Proof.
   repeat split; try reflexivity. destruct a; reflexivity.
 Qed.
 
+(** ** builders (the four a user can name): a builder is a record of fields; every script of setters, from
+    [default()] or [new(..)], followed by [finalize] / [from_builder], returns Ok or Err *)
+Fixpoint script_ok (which : Z) (script : list Z) : bool :=
+  match script with
+  | [] => true
+  | setter :: _ :: rest => match setter_field which setter with Some _ => script_ok which rest | None => false end
+  | _ => false
+  end.
+
+Theorem C05_builder_total : forall which script b,
+  (1 <= which <= 4)%Z -> script_ok which script = true ->
+  exists b' out, bld_run which script b = Some b' /\ bld_finalize which b' = Some out.
+Proof.
+  intros which script b Hw. revert b.
+  assert (Hfin : forall b', exists out, bld_finalize which b' = Some out).
+  { intros b'. unfold bld_finalize.
+    destruct (Z.eqb_spec which 1); [eauto|]. destruct (Z.eqb_spec which 2); [eauto|].
+    destruct (Z.eqb_spec which 3); [eauto|]. destruct (Z.eqb_spec which 4); [eauto|]. lia. }
+  induction script as [script IH] using (well_founded_induction (Wf_nat.well_founded_ltof _ (@length Z))).
+  intros b Hok. destruct script as [|setter [|arg rest]]; cbn [script_ok bld_run] in *.
+  - destruct (Hfin b) as [out E]. eauto.
+  - discriminate.
+  - destruct (setter_field which setter) as [f|]; [|discriminate].
+    apply IH; [unfold ltof; cbn; lia|exact Hok].
+Qed.
+
+(** a setter writes its own field and carries every other one; the hasher setters change nothing that the
+    result depends on *)
+Theorem C05_builder_setters : forall f g x y b,
+  bset f x (bset f y b) = bset f x b /\
+  (f <> g -> bset f x (bset g y b) = bset g y (bset f x b)) /\
+  bset FHasher x b = b.
+Proof.
+  intros f g x y b. split; [destruct f; reflexivity|]. split; [|reflexivity].
+  intros Hne. destruct f, g; try reflexivity; congruence.
+Qed.
+
+(** hence [finalize] is the constructor function of the values set last, whatever else the script did *)
+Theorem C05_builder_finalize : forall b size rr gr prob prot w samples fp,
+  bld_finalize 1 (bset FA size (bset FR1 rr (bset FR2 gr b))) = Some (ctor_twoq size rr gr) /\
+  bld_finalize 2 (bset FA prob (bset FB prot b)) = Some (ctor_slru prob prot) /\
+  bld_finalize 3 (bset FA size b) = Some (ctor_arc size) /\
+  bld_finalize 4 (bset FA w (bset FB prot (bset FC prob (bset FD samples (bset FR1 fp b)))))
+    = Some (ctor_wtiny_sizes w prot prob samples fp).
+Proof. intros. repeat split. Qed.
+
+(** the defaults: a TwoQueueCacheBuilder starts with the ratios 0.25 / 0.5, a WTinyLFUCacheBuilder with the false
+    positive ratio 0.01, every size 0 (so [default().finalize()] is an error, not a panic) *)
+Theorem C05_builder_defaults :
+  bld_finalize 1 (bld_default 1) = Some (err 1 0) /\ bld_finalize 2 (bld_default 2) = Some (err 1 0) /\
+  bld_finalize 3 (bld_default 3) = Some (err 1 0) /\ bld_finalize 4 (bld_default 4) = Some (err 4 0) /\
+  bld_new 1 [8]%Z = Some (mkBld 8 0 0 0 bits_0_25 bits_0_50) /\
+  bld_step [141; 1; 1; 8]%Z = Some [0; 8; 2; 4]%Z.
+Proof. vm_compute. repeat split. Qed.
+
 Print Assumptions C05_slru_total.
 Print Assumptions C05_twoq_total.
 Print Assumptions C05_arc_total.
@@ -153,3 +214,7 @@ Print Assumptions C05_ratio_validation.
 Print Assumptions C05_nan_rejected.
 Print Assumptions C05_twoq_ctor.
 Print Assumptions C05_zero_sizes_rejected.
+Print Assumptions C05_builder_total.
+Print Assumptions C05_builder_setters.
+Print Assumptions C05_builder_finalize.
+Print Assumptions C05_builder_defaults.
